@@ -37,10 +37,18 @@ def table_stats():
         "Eval vm_compute in (length site_funcs).\n"
         "Eval vm_compute in (length (flat_map (role_accesses site_names site_funcs (summaries site_names site_funcs)) (all_roles site_names site_funcs))).\n"
         "Eval vm_compute in (length (all_roles site_names site_funcs)).\n"
-        "Eval vm_compute in map (show_race site_names) (races site_names site_funcs).\n")
+        "Eval vm_compute in map (show_race site_names) (races site_names site_funcs).\n"
+        "Open Scope string_scope.\n"
+        "Definition UG := Eval vm_compute in unguarded_roles site_names site_funcs \"simplefixgo.DefaultHandler.send\" \"DefaultHandler.mu\". Print UG.\n")
     nums = [int(x) for x in re.findall(r"=\s*(\d+)%nat", out)]
     races = re.findall(r'\("([^"]+)",\s*\("([^"]+)",\s*(\d+)%nat\),\s*\("([^"]+)",\s*(\d+)%nat\)\)', out.replace("\n", " "))
+    m = re.search(r"UG =(.*?): list string", out.replace("\n", " "))
+    global UNGUARDED
+    UNGUARDED = re.findall(r'"([^"]+)"', m.group(1)) if m else []
     return nums, races, out
+
+
+UNGUARDED = []
 
 
 def run_race_driver(rounds, seed):
@@ -74,9 +82,13 @@ def check_C20(pid, tier, seed, t0):
                      "table_says": "race-free" if not races else "%d unprotected pairs" % len(races)})
     if not reports and (not gate["ok"] or races):
         v.violation({"property": pid, "kind": "proof-obligation",
-                     "what": "theorem C20_table_race_free (props/C20.v) no longer checks: the regenerated lock table "
-                             "has unprotected conflicting pairs",
+                     "what": ("theorem C20_table_race_free (props/C20.v) no longer checks: the regenerated lock table "
+                              "has unprotected conflicting pairs" if races else
+                              "theorem C20_serialization_guarded (props/C20.v) no longer checks: DefaultHandler.send, where "
+                              "ToBytes rewrites the shared message object, is reached without DefaultHandler.mu by the listed roles"
+                              if UNGUARDED else "props/C20.v no longer checks"),
                      "unprotected_pairs": [{"field": r[0], "a": "%s:%s" % (r[1], r[2]), "b": "%s:%s" % (r[3], r[4])} for r in races[:40]],
+                     "roles_reaching_DefaultHandler.send_without_DefaultHandler.mu": UNGUARDED,
                      "error": gate.get("error"),
                      "searched": "%d runs of the -race scenario driver, detector silent" % len(runs)}, no_input=True)
     cov = {
